@@ -2,8 +2,8 @@ SPECIFICATION Spec
 CONSTANTS
   NW = 2
   Family = "collect-full"
-  PeerCounts = {1, 2}
-  MaxChanges = 1
+  PeerCounts = {1}
+  MaxChanges = 2
   Faithful = FALSE
   ShareIdentical = FALSE
   CachedDecide = TRUE
